@@ -43,6 +43,27 @@ CLAIMED = {
         "solver-enumerated environments (CrossHair/z3) driving the real client; native replay",
         "DESIGN.md section 5 C04",
     ),
+
+    "C05": (
+        "Symbolic execution of the real encoders: request-id, max-repetitions, SET values and OID sub-identifiers "
+        "are symbolic through PDU.encode_raw / BulkGetRequest.__bytes__ / the message wrappers / x690; the emitted "
+        "(symbolic) datagram is parsed by an independent decoder, also executed symbolically, and z3 proves it reads "
+        "back as the intended request on every path; kernel obligations cover full numeric ranges.",
+        "Trusted: ref/ber.py as the RFC decoder, CrossHair + plug-ins. Under authentication the HMAC is computed by C "
+        "code, so ids come from a solver-chosen boundary set there.",
+        "symbolic execution of the real encoders with z3 (CrossHair), independent decoder as oracle",
+        "DESIGN.md section 5 C05",
+    ),
+    "C06": (
+        "Symbolic content octets and solver-chosen length forms flow through the real decode path (mpm.decode, lazy "
+        "PDU.decode_raw, x690, every decode_raw) up to the caller of Client.multiget; class identity and value are "
+        "compared with the independent decoder's reading of the same symbolic bytes; re-encoding of PDU / scoped PDU "
+        "/ USM parameters / message is parsed independently and must give the same content tree.",
+        "Trusted: ref/ber.py, CrossHair + plug-ins. OID text rendering and 65000-octet strings are table-driven "
+        "(solver-chosen) because they force realisation. Known finding F18 (x690) suppressed by signature.",
+        "symbolic execution of the real decoders with z3 (CrossHair), independent decoder as oracle",
+        "DESIGN.md section 5 C06",
+    ),
     "C07": (
         "The clock behind get_request_id is a stub with solver-chosen ticks per read, the reply's request-id offset, "
         "community, version and the discovery reply's message id are solver variables; every schedule within the "
